@@ -279,6 +279,12 @@ def r4_handshake(ctx):
                   "the entity marked authorized is not `trigger.client`: %s" % senders)
     if eq_switch:
         sbb, c, _ = eq_switch
+        # every received hash is compared: nothing the client controls lets the handler return before the comparison
+        pre = [(c2["kind"], c2.get("name") or c2.get("rel") or "", sorted(map(str, o2))) for (s2, c2, o2) in required_outcomes(F, cp, sbb)]
+        skipping = [e for e in cp.exits() if cp.reachable_avoiding(e, (), removed_blocks=(sbb,))]
+        ctx.check(not pre and not skipping, "check_protocol/every-hash-is-compared", site_of(cp, sbb),
+                  "the handler can return without comparing the received hash with the server's (conditions before the comparison: %s): such a client is neither authorized nor "
+                  "told about the mismatch nor asked to disconnect" % pre)
         # the mismatch edge must reach both the ProtocolMismatch trigger and the DisconnectRequest write, on every path to return
         sw = cp.blocks[sbb].term
         mismatch_targets = [t for (t, lab) in cp.succ[sbb] if not cp.reachable_avoiding(inserts[0][0], (), start=t)]
